@@ -5,6 +5,8 @@
   are in `Verif.Props.C14Fix`.)
 -/
 import Verif.Lemmas.Dispatch
+import Verif.Lemmas.LifecyclePrefix
+import Verif.Lemmas.LinePass
 namespace Verif.Props.C14
 open Verif.Model.Engine
 variable {τ : Type}
@@ -73,5 +75,75 @@ example (r : Rule Nat) (h1 : r.hasStart = false) (h2 : r.hasToken = false) (h3 :
     (h4 : r.hasDone = true) :
     expected r [7, 8] ["a", "b"] = [.line 1 "a", .line 2 "b", .done 3] := by
   simp [expected, h1, h2, h3, h4, lineEvents]
+
+end Verif.Props.C14
+
+/-! ### With failures: a prefix of the life-cycle, never more, never out of order -/
+namespace Verif.Props.C14
+open Verif.Model.Engine
+variable {τ : Type}
+
+/-- The events a file would deliver if nothing failed. -/
+def fileEvents (f : FileIn τ) : List (Event τ) :=
+  Event.start :: (match f.toks with | some t => bodyEvents t f.lines | none => [])
+
+/-- **Prefix life-cycle** — for ANY rule set (callbacks may raise, the tokenizer may fail): after a
+file every rule's call log has grown by exactly the events it handles among the first `k` events of
+the file's life-cycle, for some `k`.  So a rule is never called twice for the same event, never
+out of order, and never after a failure (its own or another rule's). -/
+theorem lifecycle_prefix (rs : List (Rule τ)) (ss : States rs) (f : FileIn τ) :
+    CompRel (fun r c c' => ∃ k, k ≤ (fileEvents f).length ∧
+        c'.log = c.log ++ ((fileEvents f).take k).filter r.handles) rs ss (scanFile rs ss f).1 := by
+  have hstart := runEvents_log_prefix rs [Event.start] ss Acc.empty
+  simp only [runEvents] at hstart
+  have widen : ∀ (evs' : List (Event τ)),
+      CompRel (fun r c c' => ∃ k, k ≤ [Event.start (τ := τ)].length ∧ c'.log = c.log ++ ([Event.start].take k).filter r.handles) rs ss
+        (dispatch rs ss Event.start Acc.empty).1 →
+      CompRel (fun r c c' => ∃ k, k ≤ (Event.start :: evs').length ∧
+        c'.log = c.log ++ ((Event.start :: evs').take k).filter r.handles) rs ss (dispatch rs ss Event.start Acc.empty).1 := by
+    intro evs' h
+    refine CompRel.mono ?_ rs _ _ h
+    rintro r c c' ⟨k, hk, e⟩
+    simp only [List.length_singleton] at hk
+    refine ⟨k, by simp only [List.length_cons]; omega, ?_⟩
+    rw [e]
+    rcases Nat.lt_or_ge k 1 with h0 | h1
+    · have : k = 0 := by omega
+      subst this; simp
+    · have : k = 1 := by omega
+      subst this; simp
+  unfold scanFile fileEvents
+  simp only
+  cases hf : (dispatch rs ss Event.start Acc.empty).2.fault with
+  | some x => exact widen _ hstart
+  | none =>
+    cases ht : f.toks with
+    | none => simpa using widen [] hstart
+    | some toks =>
+      simp only
+      have := runEvents_log_prefix rs (Event.start :: bodyEvents toks f.lines) ss Acc.empty
+      simpa [runEvents] using this
+
+end Verif.Props.C14
+
+/-! ### Fix mode: what a rule sees on each line of a pass (finding F-LIFE, part 2) -/
+namespace Verif.Props.C14
+open Verif.Model.FixSched
+
+/-- In the line phase of a fix pass a **fix-list** rule is called with the real line number in fix
+mode; a **collect-list** rule is called on the report context, whose line number is still 0 —
+the property's "with its line number" fails for collect-list rules (recorded as F-LIFE). -/
+theorem fix_pass_line_call (k n : Nat) (st : LineSt) (r : XRule) (h : r.hasLine = true) :
+    (bindOf k r = some .fix → (lineStep k n st r).log = st.log ++ [(r.id, Call.line n st.line true)]) ∧
+    (bindOf k r = some .report → (lineStep k n st r).log = st.log ++ [(r.id, Call.line 0 st.line false)]) ∧
+    (bindOf k r = none → (lineStep k n st r).log = st.log) := by
+  rw [lineStep_log]
+  refine ⟨fun hb => by simp [lineCall, h, hb], fun hb => by simp [lineCall, h, hb], fun hb => by simp [lineCall, h, hb]⟩
+
+/-- Rules that do not support fixing receive nothing at all in fix mode. -/
+theorem non_fix_rule_not_called (k n : Nat) (st : LineSt) (r : XRule) (h : r.fixes = false) :
+    (lineStep k n st r).log = st.log := by
+  rw [lineStep_log]
+  simp [lineCall, bindOf, h]
 
 end Verif.Props.C14
